@@ -1,5 +1,131 @@
-import TcheranVerif.Model.Eval
+import TcheranVerif.Model.Fen
+/-!
+# C06 — the FEN reader never crashes and rejects malformed rank widths
+
+Over the model of the `nom` grammar (`Model/Fen.lean`, `List Char` in, `ok | err | panic` out):
+* `line_width` — a board line accepted by `fen_line` describes exactly eight squares;
+* `position_shape` — an accepted board field consists of eight such lines, hence 64 squares;
+* `parse_never_panics` — for **every** input text the outcome is a position or a reported error:
+  the only `panic` of the reader (`assert_eq!(all_pieces.len(), 64)`) is unreachable, and the ply
+  arithmetic saturates;
+* `plies_in_range` — the ply counter computed from any move number fits `u32`.
+Losslessness (write ∘ read, read ∘ write on legal positions, key and accumulators included) is
+decided by the `fenrt` correspondence/oracle stream; its string-level proof is not mechanised: partial.
+-/
 namespace Tcheran.Props.C06
-theorem placeholder : True := trivial
+open Tcheran Tcheran.Fen
+
+theorem line_width (inp : List Char) (sq : List (Option Piece)) (rest : List Char)
+    (h : fenLine inp = some (sq, rest)) : sq.length = 8 := by
+  unfold fenLine at h
+  split at h
+  · cases h
+  · split at h
+    · cases h
+    · simp only at h
+      split at h
+      · cases h
+      · rename_i hlen
+        simp only [Option.some.injEq, Prod.mk.injEq] at h
+        rw [← h.1]
+        simpa using hlen
+
+theorem more_shape (n : Nat) (r : List Char) (acc ranks : List (List (Option Piece))) (rest : List Char)
+    (hacc : ∀ l ∈ acc, l.length = 8)
+    (h : fenPosition.more n r acc = some (ranks, rest)) :
+    ranks.length = acc.length + n ∧ ∀ l ∈ ranks, l.length = 8 := by
+  induction n generalizing r acc with
+  | zero =>
+    simp only [fenPosition.more, Option.some.injEq, Prod.mk.injEq] at h
+    rw [← h.1]; exact ⟨rfl, hacc⟩
+  | succ k ih =>
+    unfold fenPosition.more at h
+    split at h
+    · rename_i r'
+      simp only [bind, Option.bind_eq_some_iff] at h
+      obtain ⟨⟨l, r''⟩, hl, hm⟩ := h
+      have hw := line_width r' l r'' hl
+      have := ih r'' (l :: acc) (by
+        intro x hx
+        cases List.mem_cons.1 hx with
+        | inl e => rw [e]; exact hw
+        | inr hx' => exact hacc x hx') hm
+      constructor
+      · rw [this.1]; simp; omega
+      · exact this.2
+    · cases h
+
+/-- an accepted board field is eight ranks of eight squares -/
+theorem position_shape (inp : List Char) (ranks : List (List (Option Piece))) (rest : List Char)
+    (h : fenPosition inp = some (ranks, rest)) : ranks.length = 8 ∧ ∀ l ∈ ranks, l.length = 8 := by
+  unfold fenPosition at h
+  simp only [bind, Option.bind_eq_some_iff] at h
+  obtain ⟨⟨l8, r⟩, h8, hm⟩ := h
+  have hw := line_width inp l8 r h8
+  have := more_shape 7 r [l8] ranks rest (by intro x hx; simp at hx; rw [hx]; exact hw) hm
+  exact ⟨by rw [this.1]; rfl, this.2⟩
+
+theorem flatten_length (ranks : List (List (Option Piece))) (h : ∀ l ∈ ranks, l.length = 8) :
+    ranks.flatten.length = 8 * ranks.length := by
+  induction ranks with
+  | nil => rfl
+  | cons x xs ih =>
+    simp only [List.flatten_cons, List.length_append, List.length_cons]
+    rw [h x (by simp), ih (fun l hl => h l (by simp [hl]))]
+    omega
+
+/-- **parse_never_panics**: every text yields a position or a reported error -/
+theorem parse_never_panics (inp : List Char) : ¬ (parseFields inp matches .panic) := by
+  intro hm
+  have hp : ∃ x : Unit, parseFields inp = .panic := by
+    cases h : parseFields inp with
+    | panic => exact ⟨(), rfl⟩
+    | ok f => rw [h] at hm; cases hm
+    | err => rw [h] at hm; cases hm
+  obtain ⟨_, hp⟩ := hp
+  unfold parseFields at hp
+  cases hpos : fenPosition inp with
+  | none => rw [hpos] at hp; cases hp
+  | some pr =>
+    obtain ⟨ranks, r⟩ := pr
+    rw [hpos] at hp
+    have hs := position_shape inp ranks r hpos
+    have hlen : ranks.flatten.length = 64 := by rw [flatten_length ranks hs.2, hs.1]
+    have hv : ∃ v, toVector ranks = some v := by
+      unfold toVector
+      rw [dif_pos hlen]
+      exact ⟨_, rfl⟩
+    obtain ⟨v, hv⟩ := hv
+    simp only [hv] at hp
+    split at hp
+    · cases hp
+    · split at hp
+      · cases hp
+      · split at hp
+        · cases hp
+        · split at hp <;> cases hp
+
+/-- the ply counter fits `u32` for every move number (saturating arithmetic, after the `fix:`) -/
+theorem plies_in_range (fm : Nat) (p : Player) : pliesFromFullmove fm p ≤ u32Max := by
+  unfold pliesFromFullmove
+  omega
+
+theorem plies_of_ordinary (fm : Nat) (h1 : 1 ≤ fm) (h2 : fm ≤ 1000000) :
+    pliesFromFullmove fm .white = (fm - 1) * 2 ∧ pliesFromFullmove fm .black = (fm - 1) * 2 + 1 := by
+  unfold pliesFromFullmove u32Max
+  constructor <;> simp <;> omega
+
+/-- non-vacuity: the start position is accepted, a nine-wide rank is rejected (not a crash) -/
+example : (match parseFields "rnbqkbnr/pppppppp/8/8/8/8/PPPPPPPP/RNBQKBNR w KQkq - 0 1".toList with
+    | .ok f => f.plies == 0 && f.halfmove == 0 | _ => false) = true := by decide
+example : (match parseFields "44p/8/8/8/8/8/8/K6k w - - 0 1".toList with | .err => true | _ => false) = true := by
+  decide
+
 end Tcheran.Props.C06
-#print axioms Tcheran.Props.C06.placeholder
+#print axioms Tcheran.Props.C06.line_width
+#print axioms Tcheran.Props.C06.more_shape
+#print axioms Tcheran.Props.C06.position_shape
+#print axioms Tcheran.Props.C06.flatten_length
+#print axioms Tcheran.Props.C06.parse_never_panics
+#print axioms Tcheran.Props.C06.plies_in_range
+#print axioms Tcheran.Props.C06.plies_of_ordinary
